@@ -16,10 +16,20 @@
                     BinOp::Sub => Some(a - b),
                     BinOp::Mul => Some(a * b),
                     BinOp::Div => if b == 0.0 { None } else { Some(a / b) },
-                    _ => None,
+                    BinOp::And => Some(if a != 0.0 && b != 0.0 { 1.0 } else { 0.0 }),
+                    BinOp::Or => Some(if a != 0.0 || b != 0.0 { 1.0 } else { 0.0 }),
+                    BinOp::Xor => Some(if (a != 0.0) != (b != 0.0) { 1.0 } else { 0.0 }),
+                    BinOp::Implies => Some(if a == 0.0 || b != 0.0 { 1.0 } else { 0.0 }),
+                    BinOp::Iff => Some(if (a != 0.0) == (b != 0.0) { 1.0 } else { 0.0 }),
                 }
             }
-            _ => None,
+            Exp::And(es) => { let mut r = true; for e in es { r = (ev(e, x, y)? != 0.0) && r; } Some(if r { 1.0 } else { 0.0 }) }
+            Exp::Or(es) => { let mut r = false; for e in es { r = (ev(e, x, y)? != 0.0) || r; } Some(if r { 1.0 } else { 0.0 }) }
+            Exp::Not(a) => ev(a, x, y).map(|v| if v != 0.0 { 0.0 } else { 1.0 }),
+            Exp::UnOp(UnOp::Not, a) => ev(a, x, y).map(|v| if v != 0.0 { 0.0 } else { 1.0 }),
+            Exp::Xor(a, b) => { let (a, b) = (ev(a, x, y)? != 0.0, ev(b, x, y)? != 0.0); Some(if a != b { 1.0 } else { 0.0 }) }
+            Exp::Implies(a, b) => { let (a, b) = (ev(a, x, y)? != 0.0, ev(b, x, y)? != 0.0); Some(if !a || b { 1.0 } else { 0.0 }) }
+            Exp::Iff(a, b) => { let (a, b) = (ev(a, x, y)? != 0.0, ev(b, x, y)? != 0.0); Some(if a == b { 1.0 } else { 0.0 }) }
         }
     }
     // a division by zero, or by an expression containing a variable
@@ -88,9 +98,34 @@
                 } }
             }
         }
-        let envs = [(-2.0, 0.5), (0.5, 3.0), (3.0, -2.0), (1.0, 1.0)];
+        // logic nodes (structural and binary) over numbers (0, 1, -2, 4: non-0/1 truthy constants included), variables and small arithmetic terms
+        {
+            let bx = |e: &Exp| e.clone().to_box();
+            let atoms: Vec<Exp> = { let mut v = l0.clone(); v.push(Exp::BinOp(BinOp::Sub, bx(&l0[4]), bx(&l0[5]))); v.push(Exp::BinOp(BinOp::Mul, bx(&l0[2]), bx(&l0[4]))); v };
+            let mut lg: Vec<Exp> = vec![];
+            for a in &atoms {
+                lg.push(Exp::Not(bx(a))); lg.push(Exp::UnOp(UnOp::Not, bx(a))); lg.push(Exp::And(vec![a.clone()])); lg.push(Exp::Or(vec![a.clone()]));
+                for b in &atoms {
+                    lg.push(Exp::And(vec![a.clone(), b.clone()])); lg.push(Exp::Or(vec![a.clone(), b.clone()]));
+                    lg.push(Exp::Xor(bx(a), bx(b))); lg.push(Exp::Implies(bx(a), bx(b))); lg.push(Exp::Iff(bx(a), bx(b)));
+                    for op in [BinOp::And, BinOp::Or, BinOp::Xor, BinOp::Implies, BinOp::Iff] { lg.push(Exp::BinOp(op, bx(a), bx(b))); }
+                    lg.push(Exp::And(vec![a.clone(), Exp::Number(1.0), b.clone()])); lg.push(Exp::Or(vec![Exp::Number(0.0), a.clone(), b.clone()]));
+                    lg.push(Exp::And(vec![Exp::And(vec![a.clone(), Exp::Number(4.0)]), b.clone()])); lg.push(Exp::Or(vec![Exp::Or(vec![a.clone(), Exp::Number(0.0)]), b.clone()]));
+                }
+            }
+            // logic values inside arithmetic and nested once more
+            let n = lg.len();
+            for k in (0..n).step_by(5) {
+                let e = lg[k].clone();
+                lg.push(Exp::BinOp(BinOp::Add, bx(&e), bx(&l0[4]))); lg.push(Exp::BinOp(BinOp::Mul, bx(&l0[3]), bx(&e)));
+                lg.push(Exp::Not(bx(&e))); lg.push(Exp::And(vec![e.clone(), l0[5].clone()])); lg.push(Exp::Implies(bx(&e), bx(&l0[4])));
+            }
+            pool.extend(lg);
+        }
+        let envs = [(-2.0, 0.5), (0.5, 3.0), (3.0, -2.0), (1.0, 1.0), (0.0, 1.0), (1.0, 0.0), (0.0, 0.0)];
         let mut cases = 0u64;
         let mut fails = 0;
+        let (mut site_count, mut site_example): (u64, Option<String>) = (0, None);
         for e in &pool {
             let f = e.simplify();
             cases += 1;
@@ -102,16 +137,42 @@
                 fails += 1;
                 println!("WITNESS-FAIL {{\"fn\": \"Exp::simplify\", \"clause\": \"a division by zero or by a non-constant is never rewritten away (bounded)\", \"expression\": \"{}\", \"simplified\": \"{}\"}}", e, f);
             }
+            let mut reported = false;
             for (x, y) in envs {
                 cases += 1;
+                if reported { continue; }
                 if let Some(v) = ev(e, x, y) {
                     let ok = match ev(&f, x, y) { Some(w) => (w - v).abs() <= 1e-9 * (1.0 + v.abs()), None => false };
-                    if !ok && fails < 5 {
+                    if !ok && unwrapped_somewhere(e) {
+                        // call site: simplify_logic_nary hands back its single remaining operand without the connective (one aggregated entry)
+                        reported = true;
+                        site_count += 1;
+                        if site_example.is_none() { site_example = Some(format!("\"example\": \"{}\", \"x\": {}, \"y\": {}, \"original_value\": {}, \"simplified\": \"{}\", \"simplified_value\": \"{:?}\"", e, x, y, v, f, ev(&f, x, y))); }
+                        continue;
+                    }
+                    if !ok && fails < 40 {
+                        reported = true;
                         fails += 1;
                         println!("WITNESS-FAIL {{\"fn\": \"Exp::simplify\", \"clause\": \"sem(r, env) == sem(self, env)\", \"expression\": \"{}\", \"x\": {}, \"y\": {}, \"original_value\": {}, \"simplified\": \"{}\", \"simplified_value\": \"{:?}\"}}", e, x, y, v, f, ev(&f, x, y));
                     }
                 }
             }
         }
+        if let Some(ex) = site_example {
+            println!("WITNESS-FAIL {{\"fn\": \"Exp::simplify\", \"clause\": \"sem(r, env) == sem(self, env)\", \"site\": \"simplify_logic_nary returns its single remaining operand without the connective\", \"expressions\": {}, {}}}", site_count, ex);
+        }
         println!("WITNESS-DONE cases={}", cases);
+    }
+    // does some and / or node of e simplify to something that is neither a constant nor an and / or?  (only the single-remaining-operand arm does that)
+    fn unwrapped_somewhere(e: &Exp) -> bool {
+        let here = match e {
+            Exp::And(_) | Exp::Or(_) | Exp::BinOp(BinOp::And, _, _) | Exp::BinOp(BinOp::Or, _, _) => !matches!(e.simplify(), Exp::Number(_) | Exp::And(_) | Exp::Or(_)),
+            _ => false,
+        };
+        here || match e {
+            Exp::And(es) | Exp::Or(es) | Exp::Min(es) | Exp::Max(es) => es.iter().any(unwrapped_somewhere),
+            Exp::Not(a) | Exp::Abs(a) | Exp::UnOp(_, a) => unwrapped_somewhere(a),
+            Exp::Xor(a, b) | Exp::Implies(a, b) | Exp::Iff(a, b) | Exp::BinOp(_, a, b) => unwrapped_somewhere(a) || unwrapped_somewhere(b),
+            _ => false,
+        }
     }
